@@ -45,6 +45,13 @@ def matchCmd (toks : List String) : String :=
       | .invalid => "invalid"
       | .tooLong => "toolong"
     | none => "bad-op"
+  | ["oomparse", hex] =>
+    match ofHex hex with
+    | some t => match parseRule t with
+      | .ok r => s!"ok {showRule r}"
+      | .invalid => "invalid"
+      | .tooLong => "toolong"
+    | none => "bad-op"
   | ["test", rhex, mhex] =>
     match ofHex rhex, ofHex mhex with
     | some t, some mb =>
